@@ -121,7 +121,7 @@ func writeEvidence(prop, tier string, seed uint64, results []indexedResult, wall
 		"seed":        seed,
 		"level":       "exploration",
 		"coverage":    cov,
-		"assumptions": []string{"Tendermint is replaced by a sequencer stub that follows the 0.34 ABCI contract", "crash granularity is the ABCI call; Commit is atomic", "a clean batch is evidence, not proof"},
+		"assumptions": append([]string{"Tendermint is replaced by a sequencer stub that follows the 0.34 ABCI contract", "crash granularity is the ABCI call; Commit is atomic", "a clean batch is evidence, not proof"}, oracleAssumptions[prop]...),
 		"wall_s":      wall,
 		"violations":  nViol,
 	}
@@ -148,4 +148,19 @@ func sampleOf(t *Trace, seed uint64, profile string) interface{} {
 	ks := []string{}
 	_ = sort.Strings
 	return map[string]interface{}{"seed": seed, "profile": profile, "config": t.Cfg, "steps": len(t.Steps), "ops_prefix": ops, "x": ks}
+}
+
+
+// oracleAssumptions: what the oracles of a property take from the anchored code or read into the
+// statement, beyond the statement's own words.
+var oracleAssumptions = map[string][]string{
+	"C04": {"income is judged against bytes x blocks actually stored with a tolerance of one coin per shard settlement"},
+	"C07": {"capacity is bought and sold at one rate (bytes per pledged coin), learnt from the first purchase of the run"},
+	"C08": {"total reward cap 4e14 and halving ages as documented in x/node/abci.go; age computed exactly in integers"},
+	"C11": {"a shard's paid term = completion height + duration + queued renewal durations, tracked by the harness from completion/renewal/migration events"},
+	"C12": {"resolution bound checked as 12 + (#providers ever assigned) intervals of the order's timeout"},
+	"C15": {"reputation floor 8000 taken from the anchored selection code"},
+	"C17": {"binding-proof freshness window of 15 minutes taken from the anchored code"},
+	"C19": {"'holds' = the shard is stored (completed or being migrated away) and serves the named order or a renewal queued on it"},
+	"C20": {"the declared validator is compared as an address (bech32 spelling normalised)"},
 }
